@@ -251,8 +251,9 @@ def run(rep: Report, tier: str, seed: int) -> None:
                 if obs.outcome == "outside_domain":
                     rep.outside_domain += 1
                     continue
-                # crashes are C01's; C02 speaks about emitted files only
-                rep.extra["crashed_cases(C01)"] = rep.extra.get("crashed_cases(C01)", 0) + 1
+                # a run that does not complete emits no files to judge; reported here once the culprit unit is isolated
+                if len(units) == 1:
+                    rep.violation("run-completes", f"run:{obs.outcome}:{obs.crash_sig()}|{feat}", {"case": label, "exc": obs.exc_type + ": " + obs.exc_msg, "tb": obs.exc_tb[-500:]}, files={f"{PKG}/__init__.py": "", **{f"{PKG}/{k}": v for k, v in fs.items()}}, src_rel=PKG, opts=opts, obs=obs)
             return
         stubs = obs.stubs()
         # attribute each stub file to the unit whose unique suffix occurs in its path or text
